@@ -89,7 +89,13 @@ def kept_rank(s, cutoff, mode, max_bond, margin):
 
 
 def install(rec):
+    import os
     from quimb.tensor import decomp, tensor_core as tc
+    if os.environ.get("NUMBA_DISABLE_JIT") == "1":
+        # interpreted kernels: numpy's 0/0 -> NaN where the compiled kernel raises
+        # ZeroDivisionError (svd:eig of an exactly zero matrix); keep the pass as
+        # loud as the compiled code
+        attach.CALL_ERRSTATE = {"divide": "raise", "invalid": "raise"}
 
     def resolve(method, absorb, max_bond, cutoff):
         mb = -1 if max_bond is None else max_bond
